@@ -1,5 +1,6 @@
 import OtelVerif.Lemmas.C03
 import OtelVerif.Lemmas.C03Term
+import OtelVerif.Model.C03Mon
 /-!
 # C03 — graceful exporter shutdown drains accepted data and stops all work
 
@@ -169,9 +170,14 @@ theorem C03_shutdown_terminates : C03_shutdown_terminates_full :=
 theorem C03_shutdown_terminates_without_offers {s : State} (h : Reachable s) (hp : 1 ≤ s.phase) (hpool : PoolOK s) :
     ∃ ls s', (∀ l ∈ ls, isOffer l = false) ∧ runFrom s ls = some s' ∧ s'.phase = 5 := shutdown_terminates h hp hpool
 
-/-- **A stopped retry sender schedules nothing** — also for the queue-less exporter (no sending queue, no batcher), which is the
-degenerate case of the model in which every producer is its own consumer (`offer; read i; sendSync i` back to back, `Shutdown` =
-`shutRetry` alone): once `stopCh` is closed a failed call can only end its flight (drop or keep). -/
+/-- **A stopped retry sender schedules nothing**: once `stopCh` is closed (`phase ≥ 1`) a failed call can only end its flight (drop or
+keep), no further retry is scheduled.  This is an unfolding of the model's `fire` (the modelling decision mirrors the `stopCh` check
+of the repaired `retry_sender.go`; property C05 ties it to the code).
+QUEUE-LESS exporters (no sending queue, no batcher) are NOT covered by this LTS: there `Shutdown` only stops the retry sender and
+returns while callers may still be inside the export function (the LTS reaches "returned" only through `join`, i.e. with every
+consumer gone).  For them clause "all export calls have returned" does not hold in the code and is not claimed; what holds and is
+MONITORED on the implementation (not proved) is: no retry is scheduled after the return, so no export call BEGINS after it except
+the documented same-instant tie between a back-off timer and `Shutdown`. -/
 theorem C03_stopped_retry_schedules_nothing (s : State) (f : Nat) (o : Outcome) (hp : 1 ≤ s.phase) :
     fire s (.expEnd f o .again) = none := by
   simp only [fire]
@@ -190,7 +196,7 @@ shutdown is requested while one flight is in a retry back-off and the partial ba
 def demoSchedule : List Label :=
   [.offer [1, 2], .offer [3, 4, 5], .read 0, .consume 0 [] (some [1, 2]), .read 0, .consume 0 [[1, 2, 3]] (some [4, 5]),
    .spawn 0, .expStart 0, .expEnd 0 .trans .again,
-   .shutRetry, .shutQueue, .offer [9], .giveUp 0 true, .read 0, .consume 0 [] (some [4, 5, 9]), .exit 0, .join, .shutBatcher, .shutSpawn,
+   .shutRetry, .offer [9], .shutQueue, .giveUp 0 true, .read 0, .consume 0 [] (some [4, 5, 9]), .exit 0, .join, .shutBatcher, .shutSpawn,
    .expStart 1, .expEnd 1 .ok .drop, .timerExit, .shutWait]
 
 def demoFinal : Option State := runFrom (init { persistent := false, batching := true, retry := true } 1 1 true) demoSchedule
@@ -275,5 +281,33 @@ example : checkMemory [.acc [1], .shutReq, .es 0 [1], .shutRet, .ee 0 false] = f
 example : checkMemory [.acc [1], .es 0 [1], .ee 0 false, .shutReq, .es 1 [1], .ee 1 false, .shutRet] = false := by decide
 example : checkPersistent [.acc [1], .acc [2], .shutReq, .es 0 [1], .ee 0 true, .shutRet] [2] = true := by decide
 example : checkPersistent [.acc [1], .acc [2], .shutReq, .es 0 [1], .ee 0 true, .shutRet] [] = false := by decide
+
+/-- the persistent-queue clauses about shutdown-interrupted flights (request-level keeping, whatever the other parts of a split
+request did): every early item of a flight that the shutdown interrupted is in storage at the return AND is delivered by the next start -/
+def InterruptedKept (t : List Ev) (ends : List EndInfo) (stored recovered : List Item) : Prop :=
+  ∀ p ∈ interruptedCalls t ends, ∀ x ∈ p.2, x ∈ earlyItems t → x ∈ stored ∧ x ∈ recovered
+
+theorem C03_check_interrupted_sound (t : List Ev) (ends : List EndInfo) (stored recovered : List Item)
+    (h : checkInterrupted t ends stored recovered = true) : InterruptedKept t ends stored recovered := by
+  simp only [checkInterrupted, Bool.and_eq_true, List.isEmpty_iff, interruptedNotStored, interruptedNotRedelivered] at h
+  obtain ⟨h1, h2⟩ := h
+  intro p hp x hx he
+  have hs : x ∈ stored := by
+    have := List.flatMap_eq_nil_iff.mp h1 p hp
+    have := List.filter_eq_nil_iff.mp this x hx
+    simp [he] at this; exact this
+  refine ⟨hs, ?_⟩
+  have := List.flatMap_eq_nil_iff.mp h2 p hp
+  have := List.filter_eq_nil_iff.mp this x hx
+  simp [he, hs] at this; exact this
+
+/-- non-vacuity: request [1,2,3,4,5] split in two parts; part [1,2,3] fails permanently (finished), part [4,5] is flushed by the
+shutdown and fails with retries left (interrupted): kept and redelivered → accepted; deleted from storage → rejected -/
+example : checkInterrupted [.acc [1, 2, 3, 4, 5], .es 0 [1, 2, 3], .ee 0 true, .shutReq, .es 1 [4, 5], .ee 1 true, .shutRet]
+    [⟨0, true, true, false⟩, ⟨1, true, false, true⟩] [1, 2, 3, 4, 5] [1, 2, 3, 4, 5] = true := by decide
+example : checkInterrupted [.acc [1, 2, 3, 4, 5], .es 0 [1, 2, 3], .ee 0 true, .shutReq, .es 1 [4, 5], .ee 1 true, .shutRet]
+    [⟨0, true, true, false⟩, ⟨1, true, false, true⟩] [] [] = false := by decide
+example : checkInterrupted [.acc [1, 2], .es 0 [1, 2], .ee 0 true, .shutReq, .shutRet]
+    [⟨0, true, false, true⟩] [1, 2] [] = false := by decide
 
 end OtelVerif.C03
